@@ -20,7 +20,8 @@ Apply ==
     CASE Ev.e = "Cached"   -> OnCachedLine(C, m, Ev.t)
       [] Ev.e = "Running"  -> OnRunningLine(C, m, Ev.t, Ev.k, Ev.n)
       [] Ev.e = "Skipping" -> OnSkippingLine(C, m, Ev.t, Ev.k, Ev.n)
-      [] Ev.e = "Spawn"    -> OnSpawn(C, m, Ev.t, Ev.slot, Ev.ts)
+      [] Ev.e = "Spawn"    -> OnSpawn(C, OnSpawnEnv(C, m, Ev.t, Ev), Ev.t, Ev.slot, Ev.ts)
+      [] Ev.e = "Lib"      -> OnLib(C, m, Ev)
       [] Ev.e = "SpawnFail"-> OnSpawnFail(C, m, Ev.t)
       [] Ev.e = "Exit"     -> OnExit(C, m, Ev.t, Ev.st)
       [] Ev.e = "Success"  -> OnSuccessLine(C, m, Ev.t)
